@@ -2,6 +2,7 @@ package main
 
 import (
 	"context"
+	"net"
 	"encoding/json"
 	"flag"
 	"fmt"
@@ -85,12 +86,20 @@ func runLife(rep *Report, lc lifeCase) {
 	if lc.Stall > 0 {
 		a.OnClose = func() { time.Sleep(time.Duration(lc.Stall) * time.Millisecond) }
 	}
+	var tr interface {
+		net.Conn
+	} = a
+	stalled := strings.HasPrefix(lc.Row.End, "stalled")
+	if stalled {
+		// a transport that lets go of pending I/O only 500 ms after Close; the peer will stop reading
+		tr = &stuckEnd{End: a, hold: 500 * time.Millisecond}
+	}
 	var c *websocket.Conn
 	var err error
 	if lc.Client {
-		c, _, err = ws.ClientConn(a, &websocket.DialOptions{}, "")
+		c, _, err = ws.ClientConn(tr, &websocket.DialOptions{}, "")
 	} else {
-		c, _, err = ws.ServerConn(a, &websocket.AcceptOptions{}, "")
+		c, _, err = ws.ServerConn(tr, &websocket.AcceptOptions{}, "")
 	}
 	if err != nil {
 		rep.miss("handshake", lc, err.Error())
@@ -101,6 +110,8 @@ func runLife(rep *Report, lc lifeCase) {
 	var pmu sync.Mutex
 	withhold := false
 	echoed := false
+	stopReading := make(chan struct{})
+	var crCancel context.CancelFunc
 	send := func(f ws.Frame) {
 		f.Masked = !lc.Client
 		f.Key = [4]byte{3, 1, 4, 1}
@@ -109,11 +120,24 @@ func runLife(rep *Report, lc lifeCase) {
 		pmu.Unlock()
 	}
 	peerDone := make(chan struct{})
+	peerQuit := make(chan struct{})
+	var quitOnce sync.Once
+	endPeer := func() {
+		quitOnce.Do(func() { close(peerQuit) })
+		raw.Close()
+		<-peerDone
+	}
 	go func() {
 		defer close(peerDone)
 		var acc []byte
 		tmp := make([]byte, 4096)
 		for {
+			select {
+			case <-stopReading:
+				<-peerQuit
+				return
+			default:
+			}
 			n, err := raw.In.Read(tmp)
 			acc = append(acc, tmp[:n]...)
 			for {
@@ -217,7 +241,10 @@ func runLife(rep *Report, lc lifeCase) {
 				ok = false
 			}
 		case "closeread":
-			crCtx = c.CloseRead(bg)
+			var pctx context.Context
+			pctx, crCancel = context.WithCancel(bg)
+			defer crCancel()
+			crCtx = c.CloseRead(pctx)
 			reader = "closeread"
 		case "abandonReader":
 			send(ws.Frame{Fin: true, Op: ws.OpBin, Payload: []byte(strings.Repeat("r", 300))})
@@ -274,8 +301,7 @@ func runLife(rep *Report, lc lifeCase) {
 	}
 	if !ok {
 		c.CloseNow()
-		raw.Close()
-		<-peerDone
+		endPeer()
 		return
 	}
 	// ---- ending the connection ----
@@ -300,6 +326,19 @@ func runLife(rep *Report, lc lifeCase) {
 		}
 	}
 	switch pre {
+	case "stalledPong", "stalledPolicyClose":
+		a.Out.Cap = 8 // from now on the library's writes block after 8 bytes: the peer has stopped reading
+		close(stopReading)
+		time.Sleep(5 * time.Millisecond)
+		if pre == "stalledPong" {
+			send(ws.Frame{Fin: true, Op: ws.OpPing, Payload: []byte(strings.Repeat("p", 120))})
+		} else {
+			send(ws.Frame{Fin: true, Op: ws.OpText, Payload: []byte("a data message the CloseRead policy forbids")})
+		}
+		time.Sleep(40 * time.Millisecond) // the CloseRead goroutine is now blocked writing the pong into the full transport
+		crCancel()
+		time.Sleep(20 * time.Millisecond)
+		call = "closenow"
 	case "peerclose":
 		pmu.Lock()
 		echoed = true
@@ -357,6 +396,7 @@ func runLife(rep *Report, lc lifeCase) {
 	case <-done:
 	case <-time.After(25 * time.Second):
 		rep.miss("life-closing-call-pending", lc, "the closing call did not return within 25s; library goroutines: "+strings.Join(libCreated(), " || "))
+		quitOnce.Do(func() { close(peerQuit) })
 		raw.Close()
 		c.CloseNow()
 		<-peerDone
@@ -391,8 +431,7 @@ func runLife(rep *Report, lc lifeCase) {
 	if after != nil {
 		after()
 	}
-	raw.Close()
-	<-peerDone
+	endPeer()
 }
 
 func init() {
@@ -411,7 +450,7 @@ func init() {
 				return err
 			}
 			rep.Rows++
-			async := row.End == "closeTwiceThenLockExpire" || strings.Contains(row.End, "ose") && strings.Contains(row.End, "now") && !strings.Contains(row.End, "+") || strings.HasPrefix(row.End, "peerclose")
+			async := row.End == "closeTwiceThenLockExpire" || strings.HasPrefix(row.End, "stalled") || strings.Contains(row.End, "ose") && strings.Contains(row.End, "now") && !strings.Contains(row.End, "+") || strings.HasPrefix(row.End, "peerclose")
 			for _, s := range row.Steps {
 				if strings.HasSuffix(s, "Expire") || s == "closeread" {
 					async = true
